@@ -201,6 +201,13 @@ VX unsigned verif_c10_ctor(int mode, unsigned nx, const double* xs, unsigned ny,
 	return f.N;
 }
 // 2D: grid nx x ny with `ragged` = 1 dropping the last entry of the last row, 2 = one row missing
+// constructor with units: the abscissae are scaled by x_dim, the ordinates by f_dim; then one evaluation
+VX double verif_c10_ctor_units(unsigned n, const double* xs, const double* ys, double x_dim, double f_dim, double probe)
+{
+	std::vector<double> x(xs, xs + n), y(ys, ys + n);
+	Interpolation f(x, y, x_dim, f_dim);
+	return f(probe);
+}
 VX double verif_c10_ctor2d(unsigned nx, unsigned ny, const double* xs, const double* ys, const double* fs, int ragged, double px, double py)
 {
 	std::vector<double> x(xs, xs + nx), y(ys, ys + ny);
